@@ -510,6 +510,12 @@ def c10(c):
                      "of (g,-f) and (G,-F); a second TLC run sums the shards' partial sums and applies the windows: E||s||^2 = 2 n sigma^2, "
                      "E sum_k <s,x^k b>^2 = n sigma^2 ||b||^2, mean zero. distinct_nontrivial = number of moment predicates evaluated")
     _mc_falcon(c, ["algebra"], [])
+    # the mechanism behind the distribution: every leaf call of ffSampling inside real sign calls is a conforming SamplerZ call with
+    # sigma_min = the parameter, sigma' = the key's leaf in traversal order (two keys alternating), and the leaves multiply to
+    # (sigma^2/q)^n (ties the tree to sigma and det B = q exactly)
+    drive("signsampler", ["--tier", c.tier, "--seed", c.seed, "--out", c.work, "--shards", 14])
+    to = validate_traces("Trace_SignSampler", traces_in(c.work, "signsampler"), parallel=PAR, timeout=7200)
+    c.add_traces(to, keyfn=generic_key, label="in-sign")
     n512, n1024, keys = (1512, 756, 2) if thorough else (154, 84, 1)
     drive("c10", ["--tier", c.tier, "--seed", c.seed, "--out", c.work, "--shards", 14, "--n512", n512, "--n1024", n1024, "--keys", keys], timeout=7200)
     files = traces_in(c.work, "mom")
